@@ -518,6 +518,100 @@ theorem merge_none_of_tryReady_eq {s : State} {c : Name} {e : Entry} (hf : find 
     rw [← this, h] at hlt
     omega
 
+/-! ## the initform table holds the most specific initform of every slot -/
+
+/-- a slot map as Go has it: keyed by the slot's own name, one entry per name -/
+def SlotMapWF (m : AList GSlot) : Prop := (∀ kv ∈ m, kv.1 = kv.2.name) ∧ (m.map (·.1)).Nodup
+
+/-- the slot definitions of a class object as the hand model lists them -/
+def absSlots (m : AList GSlot) : List SlotDef := m.map (fun kv => absSlot kv.2)
+
+theorem initformFor_append (a b : List SlotDef) (x : Name) :
+    initformFor (a ++ b) x = match initformFor a x with
+      | some v => some v
+      | none => initformFor b x := by
+  induction a with
+  | nil => rfl
+  | cons sd a ih =>
+    simp only [List.cons_append, initformFor]
+    by_cases h : sd.name = x
+    · cases hf : sd.initform <;> simp [h, hf, ih]
+    · simp [h, ih]
+
+theorem initformFor_absSlots_none {m : AList GSlot} {x : Name} (hk : ∀ kv ∈ m, kv.1 = kv.2.name)
+    (hx : x ∉ m.map (·.1)) : initformFor (absSlots m) x = none := by
+  induction m with
+  | nil => rfl
+  | cons kv m ih =>
+    have h1 : kv.2.name ≠ x := by
+      intro e
+      apply hx
+      simp [← e, ← hk kv (by simp)]
+    simp only [absSlots, List.map_cons, initformFor, absSlot, h1, if_false]
+    exact ih (fun kv' h => hk kv' (by simp [h])) (fun h => hx (by simp [List.mem_map] at h ⊢; exact Or.inr h))
+
+/-- one class's slot definitions offered to the table -/
+theorem foldl_setIF_get? : ∀ (l : AList GSlot), SlotMapWF l → ∀ (m : AList GSlot) (x : Name),
+    ((l.foldl (fun m kv => setIF m kv.2) m).get? x).bind (·.initform) =
+      match initformFor (absSlots l) x with
+      | some v => some v
+      | none => (m.get? x).bind (·.initform)
+  | [], _, m, x => rfl
+  | kv :: l, hwf, m, x => by
+    have hk : kv.1 = kv.2.name := hwf.1 kv (by simp)
+    have hnd : kv.1 ∉ l.map (·.1) ∧ (l.map (·.1)).Nodup := by simpa using hwf.2
+    have hwf' : SlotMapWF l := ⟨fun kv' h => hwf.1 kv' (by simp [h]), hnd.2⟩
+    simp only [List.foldl_cons]
+    rw [foldl_setIF_get? l hwf' (setIF m kv.2) x]
+    have hs : initformFor (absSlots (kv :: l)) x =
+        if kv.2.name = x then (match kv.2.initform with
+          | some v => some v
+          | none => initformFor (absSlots l) x) else initformFor (absSlots l) x := rfl
+    rw [hs]
+    by_cases hx : kv.2.name = x
+    · have hnone : initformFor (absSlots l) x = none :=
+        initformFor_absSlots_none hwf'.1 (by rw [← hx, ← hk]; exact hnd.1)
+      rw [if_pos hx, hnone]
+      cases hf : kv.2.initform with
+      | none => simp [setIF, hf]
+      | some v => simp [setIF, hf, hx, AList.get?_set_self]
+    · rw [if_neg hx]
+      have hne : x ≠ kv.2.name := fun e => hx e.symm
+      have : (setIF m kv.2).get? x = m.get? x := by
+        unfold setIF
+        by_cases hf : (kv.2.initform != none) = true
+        · rw [if_pos hf, AList.get?_set_ne _ hne]
+        · rw [if_neg hf]
+      rw [this]
+
+/-- the inherited classes, least specific first, then (see `initFormsOf`) the own slots: the table
+    ends up with the most specific initform of every slot — what the hand model's `initformFor`
+    finds by walking the slot definitions in precedence order -/
+theorem initFormsOf_get? (H : Heap) (own : AList GSlot) (inh : List Name) (hown : SlotMapWF own)
+    (hinh : ∀ k ∈ inh, SlotMapWF (H.slotDefsOf k)) (x : Name) :
+    ((initFormsOf H own inh).get? x).bind (·.initform) =
+      initformFor (absSlots own ++ inh.flatMap (fun k => absSlots (H.slotDefsOf k))) x := by
+  unfold initFormsOf
+  rw [foldl_setIF_get? own hown, initformFor_append]
+  have hrest : ∀ (ks : List Name), (∀ k ∈ ks, SlotMapWF (H.slotDefsOf k)) → ∀ (m : AList GSlot),
+      ((ks.reverse.foldl (fun m k => (H.slotDefsOf k).foldl (fun m kv => setIF m kv.2) m) m).get? x).bind (·.initform) =
+        match initformFor (ks.flatMap (fun k => absSlots (H.slotDefsOf k))) x with
+        | some v => some v
+        | none => (m.get? x).bind (·.initform) := by
+    intro ks
+    induction ks with
+    | nil => intro _ m; rfl
+    | cons k ks ih =>
+      intro hw m
+      simp only [List.reverse_cons, List.foldl_append, List.foldl_cons, List.foldl_nil, List.flatMap_cons]
+      rw [foldl_setIF_get? _ (hw k (by simp)), initformFor_append, ih (fun k' h => hw k' (by simp [h]))]
+      cases initformFor (absSlots (H.slotDefsOf k)) x <;> rfl
+  rw [hrest inh hinh []]
+  cases initformFor (absSlots own) x with
+  | some v => rfl
+  | none =>
+    cases initformFor (inh.flatMap (fun k => absSlots (H.slotDefsOf k))) x <;> rfl
+
 /-! ## the order of operations of DefStandardClass, at the level of the hand model
 
   slip: merge the new class object against the table as it is, register it, run the readiness
